@@ -85,6 +85,22 @@ def float_pipe(ctx, verdict, cases, name="orientx"):
         exprs.append("OrientPerms(%s, %s, %s, %s) /\\ OrientPerms(%s, %s, %s, %s)" % (A, B, C, got1, A, B, C, got2))
         zeros = sum(1 for x in o["res"] if x[0] == 0)
         sigs.append("orient|float|%s|%s" % (c["fam"], "some-collinear" if zeros else "sign"))
+    # vacuity guard (not a verdict): how many of the triples does a plain float64 evaluation of the determinant get wrong?
+    # Those are the ones that need the filter's hand-over to extended precision; a generator that drifted into
+    # well-conditioned territory would leave the exact stage unexercised.
+    hard = 0
+    for o in obs:
+        if o["ev"] != "ok":
+            continue
+        fx = [[float(ec.parse_exact(v)) for v in p] for p in o["x"]]
+        ex = [[ec.parse_exact(v) for v in p] for p in o["x"]]
+        fdet = (fx[1][0] - fx[0][0]) * (fx[2][1] - fx[0][1]) - (fx[1][1] - fx[0][1]) * (fx[2][0] - fx[0][0])
+        edet = (ex[1][0] - ex[0][0]) * (ex[2][1] - ex[0][1]) - (ex[1][1] - ex[0][1]) * (ex[2][0] - ex[0][0])
+        if (fdet > 0) != (edet > 0) or (fdet < 0) != (edet < 0):
+            hard += 1
+    ctx.coverage_extra["float_triples_a_plain_float_determinant_gets_wrong"] = hard
+    if len(obs) >= 100 and hard * 20 < len(obs):
+        raise vlib.Infra("only %d of %d float triples are ill-conditioned: the extended-precision stage is hardly exercised" % (hard, len(obs)))
     return ec.apalache_obs(ctx, verdict, "OrientX", exprs, cases, sigs, name)
 
 
